@@ -1389,8 +1389,12 @@ class AdapterIndex:
                         other_adapter, other_errors, other_matches = index[s]
                         if matches < other_matches:
                             continue
-                        if other_matches == matches and s not in ambiguous:
-                            ambiguous[s] = (adapter, other_adapter, k, matches)
+                        if other_matches == matches:
+                            if s not in ambiguous:
+                                ambiguous[s] = (adapter, other_adapter, k, matches)
+                        else:
+                            # This adapter is strictly better than those seen before
+                            ambiguous.pop(s, None)
                     index[s] = (adapter, errors, matches)
                     lengths.add(len(s))
             else:
@@ -1402,8 +1406,12 @@ class AdapterIndex:
                             other_adapter, other_errors, other_matches = index[s]
                             if matches < other_matches:
                                 continue
-                            if other_matches == matches and s not in ambiguous:
-                                ambiguous[s] = (adapter, other_adapter, k, matches)
+                            if other_matches == matches:
+                                if s not in ambiguous:
+                                    ambiguous[s] = (adapter, other_adapter, k, matches)
+                            else:
+                                # This adapter is strictly better than those seen before
+                                ambiguous.pop(s, None)
                         index[s] = (adapter, errors, matches)
                 lengths.add(n)
 
